@@ -337,6 +337,11 @@ class AbstractMessageLogEntry(abc.ABC):
             # Operator can't be applied to a field of this type, so the field
             # just doesn't match. Shouldn't blow up the whole filter.
             return False
+        except ValueError:
+            # Same deal for things like `300 in b"foo"`, but not for unknown operators.
+            if operator in ("~=", "&"):
+                return False
+            raise
 
     @staticmethod
     def _apply_operator(operator, val, expected):
